@@ -176,7 +176,12 @@ type c08World struct {
 
 func c08Init(v *spec.V, variant int) func() W {
 	return func() W {
-		w := worldFromSpec(v, 2)
+		route := 0
+		if variant >= 2 {
+			route = variant
+		}
+		w := worldFromSpecRoute(v, 2, route)
+		w.Tag = fmt.Sprintf("route%d|", variant)
 		w.ProbeVals = []interface{}{1, 9}
 		w.ProbeKeys = []string{"a", "b", "new", "z"}
 		w.UseShape = false
@@ -227,6 +232,20 @@ func c08Init(v *spec.V, variant int) func() W {
 	}
 }
 
+func hasNested(v *spec.V) bool {
+	for _, e := range v.L {
+		if e.IsContainer() {
+			return true
+		}
+	}
+	for _, e := range v.KV {
+		if e.V.IsContainer() {
+			return true
+		}
+	}
+	return false
+}
+
 func c08Check(w W) (string, string) {
 	for _, k := range w.ProbeKeys {
 		if len(k) > 8 && k[:8] == "\x00shared:" {
@@ -256,7 +275,7 @@ func runC08(c *ev.Ctx) {
 	if c.Thorough() {
 		phases = []phase{{"one mutation anywhere (trees <= 6 nodes)", 6, 4, 1}, {"two mutations anywhere (trees <= 5 nodes)", 5, 4, 2}, {"three mutations anywhere (trees <= 3 nodes)", 3, 3, 3}}
 	}
-	c.Rule("for every list/object-rooted tree t over leaves {nil,1,1.5,\"s\"}, keys {a,b} (also with every list given spare private capacity first): c := t.Clone(); initial check: equal content (model walk + Equals both ways) and no container handle reachable from c is reachable from t; then explicit-state BFS over mutation histories applied at ANY node of t or of c out of 13 list mutations (Add, Insert, Replace, Delete, Pop, Clear, Reverse, Sort, 4 tree-form writes, adding a new nested list) and 9 object mutations (Set, Unset, Clear, 4 tree-form writes, setting a new nested object) - after every mutation both trees are observed completely and must equal the two-heap model (only the mutated node changed).")
+	c.Rule("for every list/object-rooted tree t over leaves {nil,1,1.5,\"s\"}, keys {a,b} (also with every list given spare private capacity first, and - for trees with nested containers - reached through 7 other construction routes: lists that are SubList / Concat / NewListOf results, the tree parsed from its own text, a Clone of a Clone, objects that are Merge / Pluck results): c := t.Clone(); initial check: equal content (model walk + Equals both ways) and no container handle reachable from c is reachable from t; then explicit-state BFS over mutation histories applied at ANY node of t or of c out of 13 list mutations (Add, Insert, Replace, Delete, Pop, Clear, Reverse, Sort, 4 tree-form writes, adding a new nested list) and 9 object mutations (Set, Unset, Clear, 4 tree-form writes, setting a new nested object) - after every mutation both trees are observed completely and must equal the two-heap model (only the mutated node changed).")
 	c.Assume("start trees are enumerated exhaustively up to the stated size; mutation values are fixed representatives (9, a fresh container)")
 	en := spec.NewEnum([]*spec.V{spec.NilV, spec.I(1), spec.F(1.5), spec.S("s")}, []string{"a", "b"})
 	for _, ph := range phases {
@@ -269,6 +288,13 @@ func runC08(c *ev.Ctx) {
 			inits = append(inits, c08Init(v, 0))
 			if v.Nodes() <= ph.nodes-1 {
 				inits = append(inits, c08Init(v, 1))
+				// the same tree reached through other construction routes (SubList / Concat / NewListOf results,
+				// parsed text, clone of a clone, Merge / Pluck results): only for trees that contain a nested container
+				if ph.len == 1 && (v.Depth() >= 3 || (v.Depth() == 2 && hasNested(v))) {
+					for _, route := range []int{2, 3, 4, 5, 6, 7, 8} {
+						inits = append(inits, c08Init(v, route))
+					}
+				}
 			}
 			return true
 		})
